@@ -17,8 +17,8 @@ cedar_schema/ast.rs `deduplicate_annotations`: a repeated key is `UserError::Dup
 `Some`.  Hence `@key` (JSON `null`) comes back as `""`: `normAnns`.
 
 Modelled here: annotation lists, annotated declarations and annotated declaration lists (`Annotated<Decl>*`, a namespace body).
-Whole annotated fragments (`FragmentA`, `printFragmentA`, `parseItemsA`: annotations on `namespace` blocks too) are defined; the theorems
-cover the declaration lists (see Thm/C09.lean for what is proved about `parseItemsA`).
+Whole annotated fragments (`FragmentA`, `printFragmentA`, `parseItemsA`: annotations on `namespace` blocks too) are defined; see
+`annotated_fragment_roundtrip` in Thm/C09.lean.
 NOT modelled: annotations on record ATTRIBUTES (they live inside `TyJson` / `AttrsC`) and string escaping.
 -/
 namespace Cedar.SchemaSyntax
